@@ -815,15 +815,28 @@ package sarama
 //@ ghost func bsz(*ProducerMessage, int) int
 
 // IsAtLeast reads only its two (value) arguments: a deterministic function of them.
-//@ func (v KafkaVersion) IsAtLeast(other) trusted
+// (verAtLeast names that function for the version-dependent clauses; the body is verified to be the lexicographic
+// comparison of the four version components)
+//@ func (v KafkaVersion) IsAtLeast(other) props C04
 //@   returns r
-//@   ensures r == verAtLeast(v, other)
+//@   effect r == verAtLeast(v, other)
+//@   ensures[lexicographic] r == (v.version[0] > other.version[0] || (v.version[0] == other.version[0] && (v.version[1] > other.version[1] || (v.version[1] == other.version[1] && (v.version[2] > other.version[2] || (v.version[2] == other.version[2] && v.version[3] >= other.version[3]))))))
+//@   loop 0: invariant forall j :: 0 <= j && j < $i ==> v.version[j] == other.version[j]
 //@   modifies nothing
 
-// byteSize reads only the message: within a state in which the message is not written, two calls agree.
-//@ func (m *ProducerMessage) byteSize(version) trusted
+// byteSize reads only the message: within a state in which the message is not written, two calls agree (bsz names
+// that value for the admission clauses). Its body is verified against the definition: the fixed overhead of the
+// format, every header's key and value plus two maximal varint lengths (record format only), the key and the value.
+//@ ghost func hdrsum([]RecordHeader, int) int
+//@ axiom[hdrsum] forall s []RecordHeader :: hdrsum(s, 0) == 0
+//@ axiom[hdrsum] forall s []RecordHeader, k int :: k >= 0 ==> hdrsum(s, k + 1) == hdrsum(s, k) + len(s[k].Key) + len(s[k].Value) + 10
+//@ func (e Encoder) Length() pure
+//@ func (m *ProducerMessage) byteSize(version) props C16
 //@   returns r
-//@   ensures r == bsz(m, version)
+//@   effect r == bsz(m, version)
+//@   ensures[counts_everything] r == ite(version >= 2, maximumRecordOverhead + hdrsum(m.Headers, len(m.Headers)), producerMessageOverhead) + ite(m.Key != nil, m.Key.Length(), 0) + ite(m.Value != nil, m.Value.Length(), 0)
+//@   loop 0: invariant size == maximumRecordOverhead + hdrsum(m.Headers, $i)
+//@   math_ints
 //@   modifies nothing
 
 //@ func (ps *produceSet) empty() pure
@@ -884,9 +897,16 @@ package sarama
 // speak from 2.1.0, the version from which Config.Validate accepts zstd); acks and timeout are the configured ones;
 // every record batch handed to the request has a header that matches the records it carries (last offset delta =
 // count - 1, record i at offset delta i); legacy compressed sets get relative inner offsets from 0.10 on.
-//@ func (r *ProduceRequest) AddBatch(topic, partition, batch) trusted
+//@ func (r *ProduceRequest) ensureRecords(topic, partition) props C04
+//@   ensures[topic_map_exists] r.records != nil && r.records[topic] != nil && haskey(r.records, topic)
 //@   modifies r.records, maps(r.records)
-//@ func (r *ProduceRequest) AddSet(topic, partition, set) trusted
+//@ func newDefaultRecords(batch) pure
+//@ func newLegacyRecords(msgSet) pure
+//@ func (r *ProduceRequest) AddBatch(topic, partition, batch) props C04
+//@   ensures[stored_under_its_partition] r.records != nil && r.records[topic] != nil && haskey(r.records[topic], partition) && r.records[topic][partition].RecordBatch == batch && r.records[topic][partition].recordsType == defaultRecords
+//@   modifies r.records, maps(r.records)
+//@ func (r *ProduceRequest) AddSet(topic, partition, set) props C04
+//@   ensures[stored_under_its_partition] r.records != nil && r.records[topic] != nil && haskey(r.records[topic], partition) && r.records[topic][partition].MsgSet == set && r.records[topic][partition].recordsType == legacyRecords
 //@   modifies r.records, maps(r.records)
 //@ func (r *ProduceRequest) AddMessage(topic, partition, msg) trusted
 //@   modifies r.records, maps(r.records)
@@ -1375,8 +1395,15 @@ package sarama
 // disposed of exactly once. ps.swept counts the sweeps of a produce set by eachPartition.
 //@ ghost field produceSet.swept int
 
-//@ func (ps *produceSet) eachPartition(cb) trusted
+// (the body is verified: the callback is called with each partition set together with the topic and partition it is
+// stored under; that a sweep visits every set exactly once is the range statement's doing; ps.swept is the ghost
+// name callers use for "one sweep happened")
+//@ func produceSet.eachPartition.cb(t, p, s)
+//@   requires[called_with_the_sets_own_key] haskey(ps.msgs, t) && ps.msgs[t] != nil && haskey(ps.msgs[t], p) && s == ps.msgs[t][p]
+//@   modifies ProducerMessage.disp, ProducerMessage.errEvents, ProducerMessage.succEvents, ProducerMessage.flags, ProducerMessage.retries, ProducerMessage.sequenceNumber, ProducerMessage.producerEpoch, ProducerMessage.hasSequence, ProducerMessage.Offset, ProducerMessage.Timestamp, transactionManager.producerEpoch, $wg
+//@ func (ps *produceSet) eachPartition(cb) props C01
 //@   effect ps.swept == old(ps.swept) + 1
+//@   nosafety
 //@   modifies ps.swept, ProducerMessage.disp, ProducerMessage.errEvents, ProducerMessage.succEvents, ProducerMessage.flags, ProducerMessage.retries, ProducerMessage.sequenceNumber, ProducerMessage.producerEpoch, ProducerMessage.hasSequence, ProducerMessage.Offset, ProducerMessage.Timestamp, transactionManager.producerEpoch, $wg, maps
 
 //@ func brokerProducer.handleError#lit0(topic, partition, pSet) props C01
